@@ -647,11 +647,18 @@ def forked_map(f, *args, **kw):
     return out
 
 
+def copying_map(f, *args, **kw):
+    """what every process-based map does, in process and deterministically: the function works on copies of the items
+    and the caller gets copies of the results"""
+    import copy
+    return [copy.deepcopy(f(*copy.deepcopy(it))) for it in zip(*args)]
+
+
 def get_map(name, order_seed=0):
     if name == 'python':
         from mystic.python_map import python_map
         return python_map
-    return {'serial': serial_map, 'reversed': reversed_map, 'threaded': threaded_map,
+    return {'serial': serial_map, 'reversed': reversed_map, 'threaded': threaded_map, 'copying': copying_map,
             'forked': forked_map}.get(name) or make_shuffled_map(order_seed)
 
 
